@@ -62,10 +62,10 @@ type TCPCase struct {
 // model
 
 type dirState struct {
-	sent, exp, hard int   // written by the source app / delivered per model / mandatory
-	ended           bool  // the direction has finished
+	sent, exp, hard int    // written by the source app / delivered per model / mandatory
+	ended           bool   // the direction has finished
 	endKind         string // eof, read-fault, write-fault, write-to-closed
-	fr, fw          int64 // fault positions (-1 none): read at source end, write at destination end
+	fr, fw          int64  // fault positions (-1 none): read at source end, write at destination end
 }
 
 type tcpModel struct {
@@ -198,7 +198,7 @@ func runTCP(c *TCPCase) (fail *failure, class string, nt bool, sig string) {
 	m := newTCPModel(c)
 	B := bound()
 	halfCloseThenReverse := 0 // bytes delivered in the reverse direction after a propagated half-close
-	var halfClosedDir [2]bool  // direction ended by a clean half-close/close while the reverse was alive
+	var halfClosedDir [2]bool // direction ended by a clean half-close/close while the reverse was alive
 	concurrent := false
 	stopped := false
 
@@ -602,7 +602,8 @@ func genTCP(t *rapid.T) *TCPCase {
 
 // TestTCPRelay is the generated search over scripts for iocopy.Bidirectional.
 func TestTCPRelay(t *testing.T) {
-	vkit.Check(t, 6000, 100000, func(t *rapid.T) {
+	resetSlowBudget()
+	vkit.Check(t, 12000, 150000, func(t *rapid.T) {
 		check(t, Case{TCP: genTCP(t)})
 	})
 }
@@ -610,6 +611,7 @@ func TestTCPRelay(t *testing.T) {
 // TestTCPScripted runs the canonical shapes once per run (request / half-close / response,
 // with and without CloseWrite on the tunnel end), so they are present whatever the seed.
 func TestTCPScripted(t *testing.T) {
+	resetSlowBudget()
 	if vkit.Shard() != 0 {
 		t.Skip("single shard")
 	}
